@@ -137,4 +137,8 @@ theorem root_squash_no_override (mode : Nat) (c : Identity) (fu fg : Nat) (h0 : 
 /-- regenerated from the source on every run: the connection loop builds the authentication context inside its request loop, from that call's credential: the identity ACCESS judges is the call's own -/
 theorem gen_conn_loop_identity_per_call : Gen.connLoopAuthPerCall = true := by decide
 
+/-- the identity ACCESS judges is the validated, squashed one for every credential flavour: HandleCall copies it into
+    the context unconditionally (AUTH_NONE callers are nobody, not uid 0) -/
+theorem gen_identity_applied : Gen.handleCallAppliesIdentity = true := by decide
+
 end Props.C12
